@@ -9,7 +9,7 @@ import Lattigo.Model.KeySwitch
   evk   comp kind N Q P lq lp w galEl s s2 A E [A2]        → shape|polys         (key generation)
         comp 0 = plain, 1 = compressed (first components only), 2 = compressed then expanded with the
         seed-regenerated stream A2;  kind gen|relin|gal
-  gp|gpl|apply|relin|aut|auth|autl|applyup|applydown  N Q P lq lp w isNTT galEl nbPi shape evk ct   → polys
+  gp|gpl|gph|gphl|apply|relin|aut|auth|autl|autlmd|applyup|applydown  N Q P lq lp w isNTT galEl nbPi shape evk ct   → polys
         (for applyup/applydown the galEl slot carries gap = N/n)
   A list of polynomials is `rows;rows;…` joined by `/`.
 -/
@@ -135,6 +135,17 @@ def handleKs (op : String) (toks : List String) : Option String := do
     | "autl", [c0, c1] =>
         let r := automorphismHoistedLazy σ (gadgetProductHoistedLazyR qsP nbPi nQkey key c1)
           (scaleByP qsP c0)
+        some (showPolys [r.1, r.2])
+    | "autlmd", [c0, c1] =>
+        -- AutomorphismHoistedLazy, then Evaluator.ModDown by the KEY's P
+        let r := automorphismHoistedLazy σ (gadgetProductHoistedLazyR qsP nbPi nQkey key c1)
+          (scaleByP qsP c0)
+        some (showPolys [modDownR c1.qs.length r.1, modDownR c1.qs.length r.2])
+    | "gph", [c] =>
+        let r := gadgetProductHoistedR qsP nbPi nQkey key c
+        some (showPolys [r.1, r.2])
+    | "gphl", [c] =>
+        let r := gadgetProductHoistedLazyR qsP nbPi nQkey key c
         some (showPolys [r.1, r.2])
     | "applyup", [c0, c1] =>
         -- galEl slot = gap; the ciphertext is in the small ring
